@@ -332,12 +332,28 @@ fn judge(case: &Case, o: &Outcome, obs: &Observed, classes: &mut Vec<String>) ->
                         detail: format!("glyphs #{} -> #{}: glyph #{} should keep y offset {} but has {}", i, c.to, fixed, o.g[fixed].dy, org[fixed].1),
                     });
                 }
+                // line-layout direction: "the layout engine adjusts the advance of the first glyph
+                // [...] so that the anchors are aligned in that direction"
                 let l = org[i].0 + c.exit.0;
                 let r = org[c.to].0 + c.entry.0;
-                classes.push(format!("cursive:line-direction:{}:{}", if l == r { "anchors-coincide" } else { "anchors-apart" }, dname));
+                let between: i32 = (i + 1..c.to).map(|k| hm(k) + o.g[k].xadv).sum();
+                if between != 0 {
+                    // skipped glyphs with an advance between the two: where they go is not defined
+                    classes.push("cursive-line:advance-between:not-judged".into());
+                } else if l != r {
+                    v.push(Verdict {
+                        rule: "cursive-line",
+                        what: format!("line-direction-anchors-apart:{}", dname),
+                        detail: format!("glyphs #{} -> #{}: exit anchor at x {} but entry anchor at x {} (origins {} and {})", i, c.to, l, r, org[i].0, org[c.to].0),
+                    });
+                } else {
+                    classes.push(format!("judged:cursive-line-direction:{}", dname));
+                }
             }
         }
     }
+    // rules with open findings last, so that they never hide another disagreement
+    v.sort_by_key(|x| x.rule == "cursive-line");
     v
 }
 
@@ -437,6 +453,28 @@ impl Prop for C05 {
         for c in &classes {
             cx.class(c);
         }
+        // the line-direction part of cursive attachment is judged separately: a case where only
+        // that rule fails is still evidence for everything else
+        let line_only: Vec<Verdict> = if verdicts.iter().all(|x| x.rule == "cursive-line") { std::mem::take(&mut verdicts) } else { Vec::new() };
+        let mut seen: Vec<&str> = Vec::new();
+        for vd in &line_only {
+            if seen.contains(&vd.what.as_str()) {
+                continue;
+            }
+            seen.push(vd.what.as_str());
+            cx.violation(
+                vd.rule,
+                &vd.what,
+                J::obj(vec![
+                    ("detail", J::s(vd.detail.clone())),
+                    ("events", J::A(o.events.iter().map(|e| J::s(e.clone())).collect())),
+                    ("observed_placement", J::s(format!("{:?}", obs.placement).chars().take(3000).collect::<String>())),
+                    ("observed_ltr", J::s(format!("{:?}", obs.pos[0]))),
+                    ("observed_rtl", J::s(format!("{:?}", obs.pos[1]))),
+                    ("case", case_json(&case, &font)),
+                ]),
+            );
+        }
         if verdicts.is_empty() {
             for e in &o.events {
                 cx.class(e);
@@ -466,20 +504,20 @@ impl Prop for C05 {
             };
             let mut q = Quirks::all();
             let rest = explain(q);
-            let sig = if rest.is_empty() {
+            let (vd, sig) = if rest.is_empty() {
                 for i in 0..Quirks::NAMES.len() {
                     q.set(i, false);
                     if !explain(q).is_empty() {
                         q.set(i, true);
                     }
                 }
-                (0..Quirks::NAMES.len()).filter(|&i| q.get(i)).map(|i| Quirks::NAMES[i]).collect::<Vec<_>>().join("+")
-            } else if rest.len() < verdicts.len() || rest.iter().all(|x| x.rule == "mark-attach" || x.rule == "cursive") {
-                rest[0].what.clone()
+                (&verdicts[0], (0..Quirks::NAMES.len()).filter(|&i| q.get(i)).map(|i| Quirks::NAMES[i]).collect::<Vec<_>>().join("+"))
+            } else if rest.iter().all(|x| x.rule == "mark-attach" || x.rule == "cursive" || x.rule == "cursive-line") {
+                // the interpreter-level result is explained; what remains is in the pen model
+                (&rest[0], rest[0].what.clone())
             } else {
-                format!("undiagnosed:{}:{}", verdicts[0].what, lookup_types(&case, &o))
+                (&verdicts[0], format!("undiagnosed:{}:{}", verdicts[0].what, lookup_types(&case, &o)))
             };
-            let vd = if rest.is_empty() { &verdicts[0] } else { &rest[0] };
             cx.violation(
                 vd.rule,
                 &sig,
